@@ -4,7 +4,8 @@ CONSTANTS
   FullNames = {"x"}
   FileTok = {"f1"}
   EnvTok = {"e1"}
-  ExecTok = {"p1"}
+  ExecTok = {"p1", "gone"}
+  MissingExec = {"gone"}
   SbomTok = {"s1"}
   Formats <- MCFormats1
   MdVals = {"1"}
